@@ -70,7 +70,7 @@ func run(r *core.Run) {
 			mu.Unlock()
 		}
 	})
-	closed, total := 0, 0
+	closed, bounded, total := 0, 0, 0
 	var open []scenarioResult
 	perKind := map[string][3]int64{}
 	for i, res := range results {
@@ -79,9 +79,12 @@ func run(r *core.Run) {
 			open = append(open, scenarioResult{Name: scs[i].Name})
 			continue
 		}
-		if res.Closed {
+		switch {
+		case res.Closed:
 			closed++
-		} else {
+		case scs[i].MaxDepth > 0 && res.Depth >= scs[i].MaxDepth:
+			bounded++
+		default:
 			open = append(open, res)
 		}
 		pk := perKind[scs[i].Kind]
@@ -96,13 +99,14 @@ func run(r *core.Run) {
 	}
 	r.Set("searches_total", total)
 	r.Set("searches_closed", closed)
+	r.Set("searches_completed_to_depth_bound", bounded)
 	r.Set("per_kind", kinds)
 	if len(open) > 20 {
 		open = open[:20]
 	}
 	r.Set("searches_not_closed", open)
-	r.Set("bounds_completed", fmt.Sprintf("%d of %d searches ran to closure (frontier empty: every reachable abstract state expanded with every operation)", closed, total))
-	r.Exhaustive(closed == total)
+	r.Set("bounds_completed", fmt.Sprintf("%d of %d searches ran to closure (frontier empty: every reachable abstract state expanded with every operation), %d more completed their depth bound, %d were cut by the budget", closed, total, bounded, total-closed-bounded))
+	r.Exhaustive(closed+bounded == total)
 }
 
 func findScenario(c Case) *scenario {
